@@ -693,7 +693,9 @@ pub fn c08_paths(b: &Board, p: &Pos, path: &str) -> R {
                         format!("for {}", p.fen()),
                     ));
                 }
-            } else if observe(&o) == observe(b) && o.get_hash() != b.get_hash() {
+            } else if (observe(&o) == observe(b) || pos_from_observed(&observe(&o)).key_beside() == p.key_beside())
+                && o.get_hash() != b.get_hash()
+            {
                 return Err(viol(
                     "C08",
                     &format!("hash/differs_from_{}/{}", name, path),
@@ -738,10 +740,17 @@ pub fn mirror_board(b: &Board, colour: bool) -> Result<Board, chess::Error> {
         }
     }
     if colour {
+        // the builder's setters are order-independent by contract: both orders are used, chosen by the position
+        let ep_first = b.get_hash() & 1 == 1;
+        if ep_first {
+            bb.en_passant(b.en_passant().map(|s| s.get_file()));
+        }
         bb.side_to_move(!b.side_to_move());
         bb.castle_rights(Color::White, b.castle_rights(Color::Black));
         bb.castle_rights(Color::Black, b.castle_rights(Color::White));
-        bb.en_passant(b.en_passant().map(|s| s.get_file()));
+        if !ep_first {
+            bb.en_passant(b.en_passant().map(|s| s.get_file()));
+        }
     } else {
         bb.side_to_move(b.side_to_move());
         bb.castle_rights(Color::White, CastleRights::NoRights);
@@ -861,6 +870,46 @@ pub fn c18_null(b: &Board, p: &Pos) -> R {
                     // would be "in check while not to move" — impossible here because it was not in check
                     return Err(viol("C18", "result/scratch_rejected", format!("{} rejected", q.fen())));
                 }
+            }
+        }
+    }
+    Ok(())
+}
+
+
+/// The same placement, side and rights without the en-passant state: a different position that many
+/// keys and caches are tempted to confuse with the original.
+pub fn ep_twin(p: &Pos) -> Option<(Pos, Board)> {
+    if !p.ep_pawn_beside() {
+        return None;
+    }
+    let mut q = p.clone();
+    q.ep = None;
+    match Board::from_str(&q.fen()) {
+        Ok(b) => Some((q, b)),
+        Err(_) => None,
+    }
+}
+
+/// C01 / C04 on a position and its en-passant twin, queried alternately: answers must not depend on
+/// what was asked before.
+pub fn twin_probe(b: &Board, p: &Pos, c01: bool, c04: bool) -> R {
+    let (q, tb) = match ep_twin(p) {
+        Some(x) => x,
+        None => return Ok(()),
+    };
+    let eps: Vec<Mv> = p.pseudo_moves().into_iter().filter(|m| p.is_ep(*m)).collect();
+    for round in 0..2 {
+        let order: [(&Board, &Pos); 2] = if round == 0 { [(b, p), (&tb, &q)] } else { [(&tb, &q), (b, p)] };
+        for (bb, pp) in order.iter() {
+            if c01 {
+                for m in eps.iter() {
+                    c01_legal_query(bb, pp, *m)?;
+                }
+                c01_movegen(bb, pp)?;
+            }
+            if c04 {
+                c04_status(bb, pp)?;
             }
         }
     }
